@@ -36,6 +36,23 @@ type skTraceLine struct {
 
 const skTraceQ = 4
 
+const traceSketchCfgFmt = `INIT TraceInit
+NEXT TraceNext
+CONSTANTS
+  Slots <- TSlots
+  Q = %d
+  QDen = 8
+  Tokens = {}
+  Weights = {}
+  Factors = {}
+  Ops = {}
+  InitSketches = 0
+  MapToks = {}
+  ScaleToks = {}
+INVARIANTS QueryOK CountOK
+CHECK_DEADLOCK FALSE
+`
+
 // recordSketchTrace runs one history on real sketches; returns a problem visible without the specification.
 func recordSketchTrace(w *bufio.Writer, rng *rand.Rand, weighted bool, nValues int) (string, int) {
 	ms := []MappingSpec{{"log", 0.01}, {"linear", 0.02}, {"cubic", 0.005}, {"log", 1e-3}, {"cubic", 0.2}, {"linear", 0.5}}[rng.Intn(6)]
@@ -269,22 +286,7 @@ func (c *Ctx) runSketchTraces(nTraces int, weighted bool, nValues int, purpose s
 	}
 	w.Flush()
 	f.Close()
-	cfg := fmt.Sprintf(`INIT TraceInit
-NEXT TraceNext
-CONSTANTS
-  Slots <- TSlots
-  Q = %d
-  QDen = 8
-  Tokens = {}
-  Weights = {}
-  Factors = {}
-  Ops = {}
-  InitSketches = 0
-  MapToks = {}
-  ScaleToks = {}
-INVARIANTS QueryOK CountOK
-CHECK_DEADLOCK FALSE
-`, skTraceQ)
+	cfg := fmt.Sprintf(traceSketchCfgFmt, skTraceQ)
 	res := c.runTLC(TLCOpts{Module: "Trace_Sketch", Cfg: cfg, Purpose: "sketch trace validation " + purpose, Workers: 1, Env: []string{"VERIF_TRACE=" + path}, Timeout: 60 * time.Minute,
 		Constants: fmt.Sprintf("%d traces, %d operations each, weighted=%v", nTraces, nValues, weighted)})
 	if res.Violated != "" {
